@@ -157,9 +157,19 @@ def ocean_floor(
             # Drop any coordinates for this depth variable.
             # For some reason .isel() call will play havok with them,
             # so best to drop them beforehand.
+            # Coordinates with this depth dimension that are defined on
+            # other spatial dimensions belong to another set of variables.
+            # Indexing them with these ocean floor indexes would broadcast them
+            # across both sets of spatial dimensions.
             dataset_subset = dataset_subset.drop_vars([
                 name for name, coordinate in dataset_subset.coords.items()
                 if coordinate.dims == (depth_dimension,)
+                or (
+                    depth_dimension in coordinate.dims
+                    and frozenset(coordinate.dims).difference(
+                        {depth_dimension}, non_spatial_dimensions
+                    ) != spatial_dimensions
+                )
             ])
 
             # Find the ocean floor using the ocean_floor_indexes
